@@ -118,15 +118,25 @@ def regen():
     return changed
 
 
+def write_coqproject():
+    """_CoqProject lists every .v under gen/ model/ spec/ proofs/ (props/ are compiled per check)"""
+    lines = ['-Q model Solstat', '-Q gen Solstat', '-Q spec Solstat', '-Q proofs Solstat', '-Q props Solstat']
+    for d in ['model', 'gen', 'spec', 'proofs']:
+        for f in sorted(glob.glob(os.path.join(COQ, d, '*.v'))):
+            lines.append(os.path.relpath(f, COQ))
+    return write_if_changed(os.path.join(COQ, '_CoqProject'), '\n'.join(lines) + '\n')
+
+
 def build_coq(timeout=2400):
-    """full .vo build of the theory (incremental through make)"""
+    """full .vo build of the theory (incremental through make; -k: a file that does not
+    compile only breaks the properties whose props/<id>.v depends on it)"""
     with Lock('coq'):
-        if not os.path.exists(os.path.join(COQ, 'Makefile')) or \
-                os.path.getmtime(os.path.join(COQ, 'Makefile')) < os.path.getmtime(os.path.join(COQ, '_CoqProject')):
+        changed = write_coqproject()
+        if changed or not os.path.exists(os.path.join(COQ, 'Makefile')):
             rc, out = sh(['coq_makefile', '-f', '_CoqProject', '-o', 'Makefile'], cwd=COQ)
             if rc != 0:
                 raise BuildError('coq_makefile failed: ' + out)
-        rc, out = sh(['timeout', str(timeout), 'make', '-j%d' % NPROC], cwd=COQ, timeout=timeout + 60)
+        rc, out = sh(['timeout', str(timeout), 'make', '-k', '-j%d' % NPROC], cwd=COQ, timeout=timeout + 60)
         return rc == 0, out
 
 
@@ -137,30 +147,52 @@ COQ_INCLUDES = ['-Q', os.path.join(COQ, 'model'), 'Solstat', '-Q', os.path.join(
 FORBIDDEN = re.compile(r'\b(Admitted|admit|Axiom|Axioms|Parameter|Parameters|Conjecture|Conjectures|Unset Guard|bypass_check|Admit Obligations|type-in-type|impredicative-set)\b')
 
 
-def audit_sources():
-    """no Admitted/Axiom/... anywhere in the hand-written or generated development"""
+def coq_file_of(mod):
+    for d in ['model', 'gen', 'spec', 'proofs', 'props']:
+        f = os.path.join(COQ, d, mod + '.v')
+        if os.path.exists(f):
+            return f
+    return None
+
+
+def deps_of(path, seen=None):
+    """transitive closure of `From Solstat Require Import ...` starting at a .v file"""
+    seen = seen if seen is not None else {}
+    if path in seen:
+        return seen
+    txt = re.sub(r'\(\*.*?\*\)', '', open(path).read(), flags=re.S)
+    seen[path] = txt
+    for m in re.finditer(r'From\s+Solstat\s+Require\s+(?:Import|Export)\s+([^.]+)\.', txt):
+        for mod in m.group(1).split():
+            f = coq_file_of(mod)
+            if f:
+                deps_of(f, seen)
+    return seen
+
+
+def audit_sources(prop=None):
+    """no Admitted/Axiom/... in the files the property's theorems depend on
+    (all files when prop is None); no Variable/Hypothesis outside a section"""
     bad = []
-    for path in glob.glob(os.path.join(COQ, '**', '*.v'), recursive=True):
-        if '/cases/' in path:
-            continue
-        txt = open(path).read()
-        txt_nc = re.sub(r'\(\*.*?\*\)', '', txt, flags=re.S)
-        for m in FORBIDDEN.finditer(txt_nc):
+    if prop and os.path.exists(os.path.join(COQ, 'props', prop + '.v')):
+        files = deps_of(os.path.join(COQ, 'props', prop + '.v'))
+    else:
+        files = {}
+        for path in glob.glob(os.path.join(COQ, '**', '*.v'), recursive=True):
+            if '/cases/' not in path:
+                files[path] = re.sub(r'\(\*.*?\*\)', '', open(path).read(), flags=re.S)
+    for path, txt in files.items():
+        for m in FORBIDDEN.finditer(txt):
             bad.append('%s: %s' % (os.path.relpath(path, COQ), m.group(0)))
-    # Variable/Hypothesis outside a section
-    for path in glob.glob(os.path.join(COQ, '**', '*.v'), recursive=True):
-        if '/cases/' in path:
-            continue
         depth = 0
-        txt = re.sub(r'\(\*.*?\*\)', '', open(path).read(), flags=re.S)
         for line in txt.split('\n'):
-            s = line.strip()
-            if re.match(r'^Section\s', s):
+            s_ = line.strip()
+            if re.match(r'^Section\s', s_):
                 depth += 1
-            elif re.match(r'^End\s', s) and depth > 0:
+            elif re.match(r'^End\s', s_) and depth > 0:
                 depth -= 1
-            elif re.match(r'^(Variable|Variables|Hypothesis|Hypotheses|Context)\b', s) and depth == 0:
-                bad.append('%s: %s outside a section' % (os.path.relpath(path, COQ), s.split()[0]))
+            elif re.match(r'^(Variable|Variables|Hypothesis|Hypotheses|Context)\b', s_) and depth == 0:
+                bad.append('%s: %s outside a section' % (os.path.relpath(path, COQ), s_.split()[0]))
     return bad
 
 
